@@ -54,8 +54,16 @@ selfref = dataset(_base, dispatch="D")                                   # 5: an
 selfref.register(1, selfref.with_options({"D": 0}) >> _loud)
 selfref.register(2, Option("X", 0))
 
-GRAPHS = [plain, overloaded, outer, nocache, derived, selfref]
-NAMES = ["plain", "overloaded", "outer", "nocache", "derived", "selfref"]
+def _strict_eff(v):
+    raise ValueError("effect must not run: effects were disabled on this dataset")
+
+
+quiet_inner = dataset(_base, effects=[_strict_eff])                     # 6: effects disabled before pickling (stateful API)
+quiet_inner.disable_effects()
+quiet = dataset(_outer, defaults={"i": quiet_inner}, default_options={"A": 7})
+
+GRAPHS = [plain, overloaded, outer, nocache, derived, selfref, quiet]
+NAMES = ["plain", "overloaded", "outer", "nocache", "derived", "selfref", "quiet"]
 
 
 @dataset
@@ -73,7 +81,7 @@ def host_impl(x: int = Option("X")) -> tuple:                           # .overl
 
 DECORATOR_FORMS = [deco, host]
 _IMPL_X = overloaded.overloads.lookup[1]
-ALL_DATASETS = [plain, overloaded, _IMPL_X, inner, outer, nocache, derived, selfref, deco, host, host_impl]
+ALL_DATASETS = [plain, overloaded, _IMPL_X, inner, outer, nocache, derived, selfref, quiet_inner, quiet, deco, host, host_impl]
 
 
 def reset_caches():
